@@ -324,7 +324,7 @@ class C09(PropCheck):
             "registration calls out of the eight (push also with a builtin function and a builtin bound method; managers also with an aliased or decorated exit method); observed suspended in the body, (async generator-based roots) while "
             "exiting, and (async exit stacks) while the stack is exiting with earlier registrations still pending; non-trivial = the tree has an exit stack with children or a generator-based manager with a body")
     manifest = {
-        "text": "Lean: C09_children (for any sequence of the eight registration calls, the exit stack's context gets exactly one child per callback, in registration order, identifying the manager or callable, its sync/async kind, the method and the position — classify ∘ register = specOf), C09_one_child_per_callback, C09_order, C09_kind, C09_manager_is_obj (whatever the manager's truthiness: the repaired F10), C09_F22_repaired (a pushed builtin is not taken for a manager because it has a __self__; a manager whose exit method goes by another name is still reported as entered), C09_exiting (the generator-based glue sets inner_stack exactly when the manager is not exiting). Tie: real ExitStack / AsyncExitStack children vs the model; the full nested tree (inner stacks, their frames' contexts, children of children) is compared with a Python unfolding of the generated tree description on every run.",
+        "text": "Lean: C09_children (for any sequence of the eight registration calls, the exit stack's context gets exactly one child per callback, in registration order, identifying the manager or callable, its sync/async kind, the method and the position — classify ∘ register = specOf), C09_one_child_per_callback, C09_order, C09_kind, C09_manager_is_obj (whatever the manager's truthiness: the repaired F10), C09_F22_repaired (a pushed builtin is not taken for a manager because it has a __self__; a manager whose exit method goes by another name is still reported as entered), C09_exiting (the generator-based glue sets inner_stack exactly when the manager is not exiting), C09_history (after ANY history of registrations, pop_all() calls and unwinding pops the stack's children are exactly the still-pending registrations in order, and the stack pop_all() returned shows exactly those pending when it was called), C09_stable_under_registration, C09_stable_under_unwinding (children already shown keep identity and [index]), C09_pop_all. Tie: real ExitStack driven through random registration / pop_all() histories and observed while unwinding from inside the running callback vs the model's runEvs; real ExitStack / AsyncExitStack children vs the model; the full nested tree (inner stacks, their frames' contexts, children of children) is compared with a Python unfolding of the generated tree description on every run.",
         "note": "What contextlib stores in _exit_callbacks for each registration method is CPython behaviour: assumed by the model (register), exercised by every stack in the corpus. The recursive unfolding of the whole tree is checked by the oracle, not proved.",
     }
     assumptions = ["contextlib's _exit_callbacks entries are as in CPython 3.12", "push(manager) and enter_context(manager) store identical entries"]
@@ -365,6 +365,17 @@ class C09(PropCheck):
                 n2["stack_exiting_running"] = True
                 n2["exit_by"] = rng.choice(["fallthrough", "exception"])
                 out.append({"k": "tree", "node": n2})
+        # the stack over time (Lean: runEvs / C09_history): registrations interleaved with pop_all(), then 0..k callbacks already popped
+        # by the unwinding stack (observed from the callback that is running)
+        for _ in range(40 if tier == "quick" else 600):
+            evs = []
+            for _i in range(rng.randint(0, 8)):
+                r = rng.random()
+                if r < 0.2:
+                    evs.append(["pop_all"])
+                else:
+                    evs.append([rng.choice(["enter_context", "callback", "push_fn", "push_mgr"]), 0])
+            out.append({"k": "hist", "evs": evs, "unwind": rng.choice([0, 0, 1, 2, 3]), "node": {"kind": "hist", "async": False}})
         # generator-based managers that reach their yield through a delegation chain longer than any loop guard of the traversal
         for yf, nbody in ((105, 1), (130, 2), (101, 0)):
             out.append({"k": "tree", "node": {"kind": "gcm", "async": False, "yield_from": yf,
@@ -524,6 +535,8 @@ class C09(PropCheck):
                 co.close()
 
     def model_line(self, case):
+        if case.get("k") == "hist":
+            return json.dumps({"p": "C09", "evs": case.get("_evs", []), "nomoved": bool(case.get("_moved_gone"))})
         if "_ops" not in case:
             return None
         return json.dumps({"p": "C09", "ops": case["_ops"]})
@@ -535,6 +548,8 @@ class C09(PropCheck):
         return self._oracles.get(id(case))
 
     def nontrivial_key(self, case, real):
+        if case.get("k") == "hist":
+            return json.dumps([case["evs"], case["unwind"]]) if any(e[0] != "pop_all" for e in case["evs"]) else None
         s = json.dumps(case["node"])
         if '"ops": [[' in s or '"body": [{' in s:
             return s
@@ -558,10 +573,126 @@ class C09(PropCheck):
 _orig = C09.run_real
 
 
+def run_hist(self, case):
+    """A real ExitStack driven through registrations and pop_all(), then unwound; observed (k callbacks popped) from inside the
+    callback the unwinding stack is running.  Returns the children of the stack and of the stack pop_all() returned, in the driver's
+    notation; case["_evs"] gets the events as the model is to replay them."""
+    import contextlib
+    import stackscope
+
+    n = [0]
+    tags = {}
+    seen = {}
+
+    class M:
+        def __enter__(s):
+            return s
+
+        def __exit__(s, *a):
+            return False
+
+    def kids(ctx):
+        out = []
+        for ch in ctx.children:
+            o = ch.obj
+            t = tags.get(id(o)) or tags.get(id(getattr(o, "__wrapped__", None))) or "?"
+            desc = ch.description or ""
+            method = desc.split("(")[0].split(".")[-1] if "(" in desc else "?"
+            idx = int((ch.varname or "?[-1]").rsplit("[", 1)[1].rstrip("]"))
+            out.append(f"{idx}:{t}:{'async' if ch.is_async else 'sync'}:{method}")
+        return " ".join(out)
+
+    evs_model = []
+    box = []
+
+    def holder():
+        with contextlib.ExitStack() as stack:
+            moved = contextlib.ExitStack()
+            for ev in case["evs"]:
+                if ev[0] == "pop_all":
+                    moved = stack.pop_all()
+                    evs_model.append(["pop_all"])
+                    continue
+                n[0] += 1
+                k = n[0]
+                if ev[0] in ("enter_context", "push_mgr"):
+                    m = M()
+                    tags[id(m)] = f"m{k}"
+                    (stack.enter_context if ev[0] == "enter_context" else stack.push)(m)
+                elif ev[0] == "callback":
+                    def cb():
+                        pass
+                    tags[id(cb)] = f"w{k}"
+                    stack.callback(cb)
+                else:
+                    def fn(*a):
+                        return False
+                    tags[id(fn)] = f"f{k}"
+                    stack.push(fn)
+                evs_model.append([ev[0], k])
+            # the probe: registered `unwind` positions from the end, so that it runs after `unwind`-1 later callbacks were popped
+            nu = case["unwind"]
+            if nu:
+                def probe():
+                    seen["st"] = stackscope.extract(box[0])
+                n[0] += 1
+                tags[id(probe)] = f"w{n[0]}"
+                stack.callback(probe)
+                evs_model.append(["callback", n[0]])
+                for _ in range(nu - 1):
+                    n[0] += 1
+                    def later():
+                        pass
+                    tags[id(later)] = f"w{n[0]}"
+                    stack.callback(later)
+                    evs_model.append(["callback", n[0]])
+                evs_model.extend([["pop_one"]] * nu)
+            with moved:
+                yield "ready"
+
+    g = holder()
+    box.append(g)
+    next(g)
+    if case["unwind"]:
+        # leave the inner `with moved` and let the stack unwind; the probe extracts the running generator from inside
+        try:
+            next(g)
+        except StopIteration:
+            pass
+        st = seen.get("st")
+        if st is None:
+            self._probs.append("the probing callback never ran")
+            return "?"
+        ctxs = st.frames[0].contexts
+        case["_evs"] = evs_model
+        if len(ctxs) != 1 or not ctxs[0].is_exiting:
+            self._probs.append(f"unwinding stack: holder frame has {len(ctxs)} contexts / is_exiting={[c.is_exiting for c in ctxs]}")
+            return "?"
+        # (the stack that pop_all() returned has been exited and is gone: the model's `moved` column is not observable any more)
+        case["_moved_gone"] = True
+        return f"{kids(ctxs[0])} | -"
+    st = stackscope.extract(g)
+    case["_evs"] = evs_model
+    ctxs = st.frames[0].contexts
+    g.close()
+    if len(ctxs) != 2:
+        self._probs.append(f"holder frame has {len(ctxs)} contexts, expected the stack and the one pop_all() returned")
+        return "?"
+    return f"{kids(ctxs[0])} | {kids(ctxs[1])}"
+
+
+def _canon_hist(self, case, real):
+    return real
+
+
 def _run(self, case):
     if not hasattr(self, "_oracles"):
         self._oracles = {}
     self._probs = []
+    if case.get("k") == "hist":
+        r = run_hist(self, case)
+        self._oracles[id(case)] = "; ".join(self._probs[:2])[:1200] if self._probs else None
+        return r
     r = _orig(self, case)
     self._oracles[id(case)] = "; ".join(self._probs[:2])[:1200] if self._probs else None
     return r
